@@ -317,6 +317,16 @@ def r6(ctx, prog):
                     if have is not None and idx is not None and idx < have:
                         ok = True
             ctx.ob('C13.R6', '%s|begin[%s]' % (f.name, idx), ok, 'begin[%s] read under readableSize() > %s' % (idx, idx), where=f.loc(st['i']))
+    # the text branch is taken exactly when at least one byte precedes the next IAC (size = iter - begin >= 1); with 0 the data starts with a command
+    tb = [st for st in f.stmts if st and st['k'] == 'IfStmt' and st.get('cond') is not None and
+          {f.stmts[x].get('n') for x in f.walk(st['cond']) if f.stmts[x]['k'] == 'DeclRefExpr' and f.stmts[x].get('dk') == 'Var'} == {'size'} and
+          any(c.get('fn') in ('onRecvString', 'append') for x in f.walk(st['ch'][1] if len(st['ch']) > 1 else st['i']) for c in [f.stmts[x]] if c['k'] in q.CALL_KINDS)]
+    if len(tb) != 1:
+        raise AnalysisBroken('Telnetd::onTcpReceived: the text branch (a test of `size` in front of the text hand-over) was not found')
+    bad = [v for v in range(0, 4) if bool(q.eval_expr(f, tb[0]['cond'], lambda sx, v=v: v if (sx['k'] == 'DeclRefExpr' and sx.get('n') == 'size') else None)) != (v >= 1)]
+    ctx.ob('C13.R6', '%s|text-iff-bytes' % f.name, not bad, 'a run of text is handed over exactly when it has at least one byte' if not bad else
+           'a text run of %d byte(s) %s: %s' % (bad[0], 'is parsed as a telnet command' if bad[0] >= 1 else 'is handed over and nothing is consumed (the loop spins)',
+                                              'every single typed character is lost' if bad[0] >= 1 else ''), where=f.loc(tb[0]['cond']))
     # begin + k: an iterator/pointer k bytes into the readable data is only formed when at least k bytes are there (std::find(begin + 4, end) with fewer
     # than 4 bytes is a reversed range: the search runs past the buffer)
     for st in f.stmts:
@@ -649,6 +659,36 @@ def r14(ctx, prog):
            ('stop() at %s' % f.loc(stops[0]['i']) if stops else 'the end of a string'), where=f.loc(nexts[0]['i']))
 
 
+def r15(ctx, prog):
+    ctx.rule('C13.R15', 'A10 history navigation replayed over a grid: for every history length 0..3 and every position 0..length, the Up and Down handlers are replayed '
+             '(conditions and index expressions folded, ++/-- applied): the position stays inside 0..length without wrapping below 0, every history[...] access lies '
+             'inside the history, Up moves one entry older unless at the oldest, Down one newer unless at the input line, and the line shown is history[length - position]', floor=2)
+    from tbxlint import replay
+    TI = 'tbox::terminal::Terminal::Impl'
+    for name, step in (('onMoveUpKey', +1), ('onMoveDownKey', -1)):
+        f = prog.fn1(TI + '::' + name)
+        bad = None
+        for size in range(0, 4):
+            for idx in range(0, size + 1):
+                acc = []
+                def opaque(sx, size=size):
+                    if sx['k'] in q.CALL_KINDS and sx.get('fn') == 'size' and sx.get('obj') is not None and f.path(sx['obj']).endswith('history'):
+                        return size
+                    return None
+                rp = replay.Replay(f, {'history_index': idx}, opaque, lambda sx, cont, iv: acc.append((cont, iv, sx)) if cont.endswith('history') else None)
+                st = rp.go()
+                want = idx + step if 0 <= idx + step <= size else idx
+                oob = [(c, iv) for c, iv, sx in acc if iv is None or not (0 <= iv < size)]
+                moved = want != idx
+                shown = [iv for c, iv, sx in acc]
+                wrong_line = moved and ((want >= 1 and shown != [size - want]) or (want == 0 and shown))
+                if bad is None and (rp.wrapped or oob or st['history_index'] != want or wrong_line):
+                    bad = (size, idx, st['history_index'], rp.wrapped, oob if oob else ([('history', 'entry %s instead of %s' % (shown, [size - want] if want >= 1 else []))] if wrong_line else []))
+        ctx.ob('C13.R15', '%s|history-walk' % f.name, bad is None, 'position and accesses stay inside the history for every length 0..3 and position' if bad is None else
+               'with %d history line(s) at position %d the handler leaves position %s%s%s: the next key reads outside the history' %
+               (bad[0], bad[1], bad[2], (', %s goes below zero at %s' % bad[3]) if bad[3] else '', (', reads history[%s]' % bad[4][0][1]) if bad[4] else ''), where=f.loc(f.body))
+
+
 def run(ctx):
     prog = extract('ALL' if ctx.tier == 'thorough' else scope_units())
     ctx.guard(r1, ctx, prog)
@@ -662,6 +702,7 @@ def run(ctx):
     ctx.guard(r10, ctx, prog)
     ctx.guard(r13, ctx, prog)
     ctx.guard(r14, ctx, prog)
+    ctx.guard(r15, ctx, prog)
     ctx.guard(harden.run_threshold, ctx, prog, 'C13.R12', lambda g: g.file.startswith(MODULES + '/terminal/impl/service/'), 'terminal input scanner', 3)
     ctx.guard(harden.run_narrowing, ctx, prog, 'C13.R11', input_entries(prog),
               lambda g: g.file.startswith(MODULES + '/terminal/') or g.file.startswith(MODULES + '/util/'), 'terminal input path')
